@@ -359,6 +359,15 @@ fn splice(bytes: &[u8], s: &Seg, body: &[u8]) -> Vec<u8> {
     if let Some((p, w)) = s.pfx { let mut v = body.len(); for k in 0..w { m[p + k] = (v & 0xff) as u8; v >>= 8; } }
     m
 }
+/// vint64 encoding of `v` in `l` bytes (1..=9); None when the value does not fit that form.  l larger than necessary
+/// gives a non-canonical form, which the reader accepts (utils/core/src/serde/byte_reader.rs read_usize)
+fn vint(v: u64, l: usize) -> Option<Vec<u8>> {
+    if l == 9 { let mut o = vec![0u8]; o.extend_from_slice(&v.to_le_bytes()); return Some(o); }
+    if l == 0 || l > 8 || (7 * l < 64 && v >> (7 * l) != 0) { return None; }
+    let x: u128 = (((v as u128) << 1) | 1) << (l - 1);
+    Some(x.to_le_bytes()[..l].to_vec())
+}
+
 fn set_le(m: &mut [u8], p: usize, w: usize, mut v: u64) { for k in 0..w { m[p + k] = (v & 0xff) as u8; v >>= 8; } }
 
 // ================================================================================================ cases
@@ -572,6 +581,27 @@ fn mutations(b: &Base, r: &mut Rng, budget: usize, exhaustive_bits: bool, out: &
         for (lbl, tail) in [("gkr:some-empty", vec![1u8, 1]), ("gkr:some-3", vec![1, 7, 9, 9, 9]), ("gkr:len=2^60", vec![1, 0, 0, 0, 0, 0, 0, 0, 0, 0x10]), ("gkr:len=2^32", vec![1, 0, 0, 0, 0, 0, 1, 0, 0, 0]),
                             ("gkr:len=65535", vec![1, 0xfc + 3, 0xff, 0x03]), ("gkr:tag=2", vec![2]), ("gkr:none+junk", vec![0, 0])] {
             let mut m = bytes[..g.start].to_vec(); m.extend_from_slice(&tail); out.push(vcase(b, lbl.into(), m));
+        }
+        // the only usize (vint64) length of the format: the full boundary set of the encoding, the values which make
+        // `position + length` wrap around 2^64 (check_eor of a bulk read), every encoding length incl. non-canonical ones,
+        // without and with some bytes following
+        let pos9 = (g.start + 1 + 9) as u64;   // reader position after the tag and a 9-byte length
+        let mut vals: Vec<(String, u64)> = vec![("0".into(), 0), ("1".into(), 1), ("127".into(), 127), ("128".into(), 128), ("2^14".into(), 1 << 14), ("2^32-1".into(), (1 << 32) - 1),
+            ("2^56-1".into(), (1 << 56) - 1), ("2^56".into(), 1 << 56), ("2^63-1".into(), (1 << 63) - 1), ("2^63".into(), 1 << 63), ("2^64-2".into(), u64::MAX - 1), ("2^64-1".into(), u64::MAX)];
+        for d in [-2i64, -1, 0, 1, 2] { vals.push((format!("2^64-pos{:+}", d), (0u64.wrapping_sub(pos9)).wrapping_add(d as u64))); }
+        vals.push(("2^64-len".into(), 0u64.wrapping_sub(bytes.len() as u64)));
+        for (name, v) in &vals {
+            for l in 1..=9usize {
+                if let Some(enc) = vint(*v, l) {
+                    // shorter forms shift the position: keep the wrap-around values exact for every form
+                    let v2 = if name.starts_with("2^64-pos") { v.wrapping_add(9 - l as u64) } else { *v };
+                    let enc = if v2 != *v { match vint(v2, l) { Some(e) => e, None => enc } } else { enc };
+                    for extra in [0usize, 3] {
+                        let mut m = bytes[..g.start].to_vec(); m.push(1); m.extend_from_slice(&enc); m.extend(std::iter::repeat(7u8).take(extra));
+                        out.push(vcase(b, format!("gkr:vint={},form={},+{}", name, l, extra), m));
+                    }
+                }
+            }
         }
     }
     // --- 3. context differs from what the AIR expects: every valid alternative of the options and of the trace layout; foreign modulus
